@@ -221,6 +221,9 @@ pub struct PutSpec {
     pub role: u8,
     #[serde(default)]
     pub parent_id: Option<u64>,
+    /// parent addressed by the uri of a committed document (resolved when the op runs)
+    #[serde(default)]
+    pub parent_uri: Option<String>,
     #[serde(default)]
     pub mime: Option<String>,
 }
@@ -278,6 +281,9 @@ pub enum Op {
     /// update committed frame `target`; payload None keeps the old payload
     Update { target: u64, spec: PutSpec },
     Delete { target: u64 },
+    /// as Update / Delete, addressing the committed active document that carries this uri
+    UpdateUri { uri: String, spec: PutSpec },
+    DeleteUri { uri: String },
     Commit,
     Vacuum,
     Doctor(DoctorSpec),
@@ -309,7 +315,8 @@ impl Op {
             Op::Close => "close",
             Op::Put(_) => "put",
             Op::Update { .. } => "update",
-            Op::Delete { .. } => "delete",
+            Op::Delete { .. } | Op::DeleteUri { .. } => "delete",
+            Op::UpdateUri { .. } => "update",
             Op::Commit => "commit",
             Op::Vacuum => "vacuum",
             Op::Doctor(_) => "doctor",
@@ -332,7 +339,7 @@ impl Op {
     pub fn is_mutation(&self) -> bool {
         matches!(
             self,
-            Op::Put(_) | Op::Update { .. } | Op::Delete { .. } | Op::Commit | Op::Vacuum | Op::Ticket { .. } | Op::CommitSkipIndexes | Op::FinalizeIndexes
+            Op::Put(_) | Op::Update { .. } | Op::Delete { .. } | Op::UpdateUri { .. } | Op::DeleteUri { .. } | Op::Commit | Op::Vacuum | Op::Ticket { .. } | Op::CommitSkipIndexes | Op::FinalizeIndexes
         )
     }
 }
